@@ -399,14 +399,23 @@ func checkC03(w *World, r *Report) {
 			why := "the sum subtracted does not cover the full state list"
 			fullList := func(c *ssa.Call) bool {
 				// argument: &states where states is a []State parameter, not a sub-slice
-				o := t.Origins(c.Common().Args[0])
-				isParamList := false
-				for _, l := range o.Leaves {
-					if l.Kind == "param" && strings.HasSuffix(typeString(l.V.Type()), "types.State") {
-						isParamList = true
+				// (the list may travel inside a small struct built by a caller: the argument is followed to the callers, one
+				// level at a time, until it is a []State parameter)
+				for lift := 0; lift <= 2; lift++ {
+					tl := *t
+					tl.Lift = lift
+					o := tl.Origins(c.Common().Args[0])
+					isParamList := false
+					for _, l := range o.Leaves {
+						if l.Kind == "param" && strings.HasSuffix(typeString(l.V.Type()), "types.State") {
+							isParamList = true
+						}
+					}
+					if isParamList {
+						return !sliceOnPath(o)
 					}
 				}
-				return isParamList && !sliceOnPath(o)
+				return false
 			}
 			for _, sv := range subtrahends {
 				if c, ok := sv.(*ssa.Call); ok && strings.HasSuffix(callName(c.Common()), "keeper.getRamainsSum") {
@@ -743,12 +752,7 @@ func conserveRule(w *World, r *Report, rule string, a distAnchors) {
 			continue
 		}
 		cf := s.Caller
-		var x ssa.Value
-		for _, arg := range s.Args() {
-			if strings.HasSuffix(typeString(arg.Type()), "types.DecCoins") {
-				x = arg
-			}
-		}
+		x := creditedValue(s)
 		pos := w.Pos(s.Instr.Pos())
 		// a computed share: the percentage call itself, or the result of a tree helper every return of which yields one
 		// (`share := d.takeShare(pct)`)
@@ -1258,7 +1262,7 @@ func checkC04(w *World, r *Report) {
 					continue
 				}
 				hit := false
-				for _, a2 := range s2.Args() {
+				for _, a2 := range flatArgs(s2) {
 					if a2 == ssa.Value(c) {
 						hit = true
 					}
@@ -1281,7 +1285,7 @@ func checkC04(w *World, r *Report) {
 				if isShare {
 					okDest := false
 					shareElem := derefRoot(fracAt)
-					for _, a2 := range s2.Args() {
+					for _, a2 := range flatArgs(s2) {
 						if fa, ok := a2.(*ssa.FieldAddr); ok {
 							if _, f := fieldOf(fa); f == "Destination" && derefRoot(fa.X) == shareElem {
 								okDest = true
@@ -1291,9 +1295,12 @@ func checkC04(w *World, r *Report) {
 					r.Check(okDest, "C04.fraction", "share credited to its own destination", w.Pos(s2.Instr.Pos()), "&share.Destination of the same element", "a share is credited to another destination than its own")
 				} else {
 					burnCredit := strings.Contains(s2.Method, "Burn")
-					for _, a2 := range s2.Args() {
+					for _, a2 := range flatArgs(s2) {
 						if fnv, isF := a2.(*ssa.Function); isF && strings.Contains(fnv.Name(), "Burn") {
 							burnCredit = true // the burn-state finder handed to a shared crediting helper
+						}
+						if bv, isB := constBool(a2); isB && bv {
+							burnCredit = true // the burn flag of a shared crediting helper
 						}
 					}
 					r.Check(burnCredit, "C04.fraction", "burn share credited to the burn state", w.Pos(s2.Instr.Pos()), "addSharesToBurnState", "the burn share is credited to an account state")
@@ -1966,4 +1973,43 @@ func shareCallsOf(v ssa.Value, inTree map[*ssa.Function]bool, depth int) ([]*ssa
 		out = append(out, cs...)
 	}
 	return out, len(rets) > 0
+}
+
+// creditedValue: the coins a crediting call adds to a state: its DecCoins argument, or the DecCoins field of a small
+// struct literal built at the call site to carry the arguments.
+func creditedValue(s *Site) ssa.Value {
+	var x ssa.Value
+	for _, arg := range s.Args() {
+		if strings.HasSuffix(typeString(arg.Type()), "types.DecCoins") {
+			x = arg
+		}
+	}
+	if x != nil {
+		return x
+	}
+	for _, arg := range s.Args() {
+		for _, v := range literalArgFields(arg) {
+			if strings.HasSuffix(typeString(v.Type()), "types.DecCoins") {
+				x = v
+			}
+		}
+	}
+	return x
+}
+
+// flatArgs: the call's arguments, with the fields of small struct literals built at the call site added.
+func flatArgs(s *Site) []ssa.Value {
+	out := append([]ssa.Value{}, s.Args()...)
+	for _, a := range s.Args() {
+		lf := literalArgFields(a)
+		var idx []int
+		for i := range lf {
+			idx = append(idx, i)
+		}
+		sort.Ints(idx)
+		for _, i := range idx {
+			out = append(out, lf[i])
+		}
+	}
+	return out
 }
